@@ -503,6 +503,8 @@ void getOffsetAndCount(const MultiTag &tag, const DataArray &array, const vector
                         throw nix::OutOfBounds("util::offsetAndCount:An invalid range was encountered!");
                     }
                     data_offset[dim_index] = *ofst;
+                } else {
+                    throw nix::OutOfBounds("util::offsetAndCount:An invalid range was encountered!");
                 }
             }   
         }
